@@ -211,7 +211,7 @@ def run(ctx):
     st = State()
     pt = install(ctx, st)
     g = cfg()
-    for i in range(ctx.n(20000, 600000)):
+    for i in range(ctx.n(60000, 600000)):
         p = gp.gen_pep(ctx.rng, g)
         if i % 25 == 0:
             p = Pep(p.seq)      # unmodified peptides are returned unchanged
